@@ -690,6 +690,104 @@ def resync(S, M):
     return N
 
 
+def faulted_op(ctx, S, M, op, w, mode, armed, rng, sig):
+    """Run op with the armed-th failure point raising; then either repeat the operation or crash and reopen.
+    -> (model, fault reached?)"""
+    S.ctl.reset(armed=armed)
+    existed = op[0] == 'touch' and op[1] in M.ids
+    try:
+        apply_op(S, M, op, rng, ctx)
+        S.ctl.reset()
+        ctx.event('fault-not-reached')
+        sig.append(op[0])
+        return M, False
+    except InjectedFault as f:
+        S.ctl.reset()
+        ctx.event('fault-injected:' + str(f).split('#')[0])
+        sig.append(f'{op[0]}!{f}')
+        if mode == 'crash':
+            S.crash()
+            S.open()
+            M = resync(S, M)
+            ctx.event('crash-reopen')
+            check_invariants(ctx, S, M, dict(w, fault=str(f), mode='crash'), f'crash at {f} inside {op[0]} and reopen')
+        else:
+            # repeat the operation
+            try:
+                M2 = resync(S, M)
+                try:
+                    apply_op(S, M2, op, rng, ctx)
+                    rep = 'ok'
+                except InjectedFault:
+                    raise
+                except Exception as e:   # noqa
+                    rep = e
+                M = resync(S, M2)
+                pc = postcondition(S, M, op, existed)
+                ww = dict(w, fault=str(f), mode='repeat', repeat_result=str(rep)[:200])
+                ctx.event('operation-repeated')
+                if pc:
+                    ctx.report(pc if pc == 'touch-identity-partial' else f'repeat-misbehaves:{pc}',
+                               f'after {op[0]} failed at {f} the repeated call left the store without the operation\'s effect', ww)
+                elif not isinstance(rep, str) and not isinstance(rep, KeyError):
+                    ctx.report(f'repeat-raises:{op[0]}:{type(rep).__name__}', f'repeating {op[0]} after a failure at {f} raised {rep!r}', ww)
+                check_invariants(ctx, S, M, ww, f'{op[0]} failed at {f} and was repeated')
+            except Exception as e:   # noqa
+                ctx.report(f'repeat-harness:{type(e).__name__}@{raising_site(e)[0]}', f'{e!r}', w)
+        return M, True
+    except Exception as e:   # noqa
+        S.ctl.reset()
+        ctx.report(f'operation-raises:{op[0]}:{type(e).__name__}@{raising_site(e)[0]}', f'{e!r}', w)
+        return M, True
+
+
+def fault_sweep(ctx, rng):
+    """Every failure point of every multi-step operation, one at a time (k = 0, 1, ... until the operation completes without
+    reaching the k-th point), each once followed by a repetition and once by a crash + reopen, on a small populated store."""
+    A = T([C(b'id'), C(b'a')])
+    Bn = T([C(b'id'), C(b'b')])
+
+    def builders(M):
+        ka = next(iter(M.ids[A]['keys']))
+        kb = next(iter(M.ids[Bn]['keys']))
+        ca = next(iter(M.ids[A]['keys'][ka]['certs']))
+        return [('touch', T([C(b'id'), C(b'sweep')])), ('new_key', A, 'ec', None, 'kc'), ('new_key', A, 'ec', b'k1', 'kc'), ('import_cert', A, ka, (Bn, kb)),
+                ('set_default_identity', Bn), ('set_default_key', A, ka), ('del_cert', A, ka, ca, 'kc'), ('del_key', A, ka, 'kc'), ('del_key', A, ka, 'obj'),
+                ('del_identity', A), ('new_identity', T([C(b'bare'), C(b'z')]))]
+    nops = 11
+    for oi in range(nops):
+        for mode in ('fault', 'crash'):
+            k = 0
+            while k < 30:
+                root = tempfile.mkdtemp(prefix='nvf-kc-')
+                orig_remove = tpm_file_mod.os.remove
+                try:
+                    S = Store(root)
+                    M = Model()
+
+                    def remove_hook(p, S=S):
+                        S.ctl.tick('os.remove')
+                        return orig_remove(p)
+                    tpm_file_mod.os.remove = remove_hook
+                    for pre in (('touch', A), ('touch', Bn), ('new_key', A, 'ec', None, 'kc')):
+                        apply_op(S, M, pre, rng, ctx)
+                    op = builders(M)[oi]
+                    sig = []
+                    w = {'sweep': True, 'op': [op[0]], 'failure_point': k, 'mode': mode}
+                    M, reached = faulted_op(ctx, S, M, op, w, mode, k, rng, sig)
+                    ctx.case(('sweep', op[0], oi, mode, k, tuple(sig)), nontrivial=True)
+                    if reached:
+                        ctx.event('fault-sweep-point')
+                        check_signer(ctx, S, M, rng, w)
+                    S.close()
+                finally:
+                    tpm_file_mod.os.remove = orig_remove
+                    shutil.rmtree(root, ignore_errors=True)
+                if not reached:
+                    break
+                k += 1
+
+
 def run_history(ctx, rng, length, faults):
     root = tempfile.mkdtemp(prefix='nvf-kc-')
     orig_remove = tpm_file_mod.os.remove
@@ -713,51 +811,7 @@ def run_history(ctx, rng, length, faults):
             fault_here = faults and op[0] not in ('reopen',) and rng.random() < 0.35
             if fault_here:
                 # dry count of the failure points of this operation on a scratch copy is not possible cheaply: arm a random early index
-                mode = rng.choice(['fault', 'fault', 'crash'])
-                S.ctl.reset(armed=rng.randint(0, 7))
-                existed = op[0] == 'touch' and op[1] in M.ids
-                try:
-                    apply_op(S, M, op, rng, ctx)
-                    S.ctl.reset()
-                    ctx.event('fault-not-reached')
-                    sig.append(op[0])
-                except InjectedFault as f:
-                    S.ctl.reset()
-                    ctx.event('fault-injected:' + str(f).split('#')[0])
-                    sig.append(f'{op[0]}!{f}')
-                    if mode == 'crash':
-                        S.crash()
-                        S.open()
-                        M = resync(S, M)
-                        ctx.event('crash-reopen')
-                        check_invariants(ctx, S, M, dict(w, fault=str(f), mode='crash'), f'crash at {f} inside {op[0]} and reopen')
-                    else:
-                        # repeat the operation
-                        try:
-                            S.kc.conn._c.rollback() if False else None
-                            M2 = resync(S, M)
-                            try:
-                                apply_op(S, M2, op, rng, ctx)
-                                rep = 'ok'
-                            except InjectedFault:
-                                raise
-                            except Exception as e:   # noqa
-                                rep = e
-                            M = resync(S, M2)
-                            pc = postcondition(S, M, op, existed)
-                            ww = dict(w, fault=str(f), mode='repeat', repeat_result=str(rep)[:200])
-                            ctx.event('operation-repeated')
-                            if pc:
-                                ctx.report(pc if pc == 'touch-identity-partial' else f'repeat-misbehaves:{pc}',
-                                           f'after {op[0]} failed at {f} the repeated call left the store without the operation\'s effect', ww)
-                            elif not isinstance(rep, str) and not isinstance(rep, KeyError):
-                                ctx.report(f'repeat-raises:{op[0]}:{type(rep).__name__}', f'repeating {op[0]} after a failure at {f} raised {rep!r}', ww)
-                            check_invariants(ctx, S, M, ww, f'{op[0]} failed at {f} and was repeated')
-                        except Exception as e:   # noqa
-                            ctx.report(f'repeat-harness:{type(e).__name__}@{raising_site(e)[0]}', f'{e!r}', w)
-                except Exception as e:   # noqa
-                    S.ctl.reset()
-                    ctx.report(f'operation-raises:{op[0]}:{type(e).__name__}@{raising_site(e)[0]}', f'{e!r}', w)
+                M, _ = faulted_op(ctx, S, M, op, w, rng.choice(['fault', 'fault', 'crash']), rng.randint(0, 7), rng, sig)
                 continue
             try:
                 apply_op(S, M, op, rng, ctx)
@@ -794,11 +848,15 @@ def run_history(ctx, rng, length, faults):
 def run(ctx):
     ctx.rule = RULE
     rng = ctx.rng
-    n = ctx.n(100, 20000)
+    if ctx.shard == 0:
+        fault_sweep(ctx, rng)
+    n = ctx.n(80, 20000)
     for i in range(n):
         run_history(ctx, rng, rng.randint(5, 40), faults=(i % 3 == 2))
     need = ['invariant-scan', 'signer-judged', 'operation-repeated', 'crash-reopen', 'op-del_key', 'op-del_identity', 'op-reopen',
             'op-import_cert', 'signer-deleted-key-refused', 'set-default-with-nonmember-name']
+    if ctx.shard == 0:
+        need.append('fault-sweep-point')
     for k in need:
         ctx.need_event(k)
     ctx.assumptions = ['crash points are simulated by abandoning the SQLite connection without commit (SQLite\'s atomic commit is trusted)',
